@@ -1,7 +1,79 @@
 (** C08 -- Every collection reclaims all unreachable containers; heap stays bounded. *)
 From Pakhi Require Import Base Float64 Syntax Tables Lexer Interp.
-From Pakhi.Proofs Require Import GCMark GCSweep Alloc.
+From Pakhi Require Import Parser.
+From Pakhi.Proofs Require Import GCMark GCSweep Alloc WF WFOps NoPanic ParseOk HeapPre GCInvisible HeapBound.
 Local Open Scope nat_scope.
+
+(** ** the bound, for whole runs (HeapBound.v) *)
+
+(* Allocation accounting through every statement, calls of any depth included ([hstep]): the free lists only shrink, from
+   the front; an arena grows only after its free list has run empty; every slot taken from a free list or added to an
+   arena is paid for by at least one unit of the allocation counter. *)
+Theorem C08_every_statement_pays_for_its_slots : forall code fuel m m', interp code fuel m = Ok m' ->
+  let h := m_heap m in let h' := m_heap m' in
+  exists pl pr, h_free_lists h = pl ++ h_free_lists h' /\ h_free_recs h = pr ++ h_free_recs h' /\
+  length (h_lists h) <= length (h_lists h') /\ length (h_recs h) <= length (h_recs h') /\
+  length (h_lists h') + length pl + length (h_recs h') + length pr + h_alloc h <= h_alloc h' + length (h_lists h) + length (h_recs h) /\
+  (length (h_lists h) < length (h_lists h') -> h_free_lists h' = []) /\
+  (length (h_recs h) < length (h_recs h') -> h_free_recs h' = []).
+Proof. exact interp_hstep. Qed.
+Print Assumptions C08_every_statement_pays_for_its_slots.
+
+(* after a collection the occupied slots (arena length minus free-list length) are at most the reachable containers *)
+Theorem C08_collection_leaves_only_live_slots : forall h ss h' live, wf_heap h -> wf_scopes h ss -> collect ss h = Ok h' ->
+  (forall a, reach h (is_root ss) (NL a) -> In a live) ->
+  length (h_lists h') - length (h_free_lists h') <= length live.
+Proof. exact collect_occupied_le_live_lists. Qed.
+Print Assumptions C08_collection_leaves_only_live_slots.
+
+Theorem C08_collection_leaves_only_live_records : forall h ss h' live, wf_heap h -> wf_scopes h ss -> collect ss h = Ok h' ->
+  (forall a, reach h (is_root ss) (NR a) -> In a live) ->
+  length (h_recs h') - length (h_free_recs h') <= length live.
+Proof. exact collect_occupied_le_live_recs. Qed.
+Print Assumptions C08_collection_leaves_only_live_records.
+
+(* The heap is bounded independently of the number of statements executed.  For every program the front end accepts: if
+   at every statement boundary at most R lists and at most R records are reachable from the variables in scope, and no
+   single top-level statement advances the allocation counter by more than A, then -- observed with ANY fuel, i.e. at
+   every boundary of the run, after any number of loop iterations -- both arenas are at most R + threshold + A long. *)
+Theorem C08_heap_bounded_at_every_boundary : forall fs cwd main_path pfuel src code platform w R A,
+  front fs cwd main_path pfuel src = Ok code ->
+  (forall m f m1, tstate code (init_machine platform w) m -> interp code f m = Ok m1 ->
+                  h_alloc (m_heap m1) <= h_alloc (m_heap m) + A /\ live_lists_le m1 R /\ live_recs_le m1 R) ->
+  forall fuel, let m := snd (run code fuel None 0 (init_machine platform w)) in
+    length (h_lists (m_heap m)) <= R + gc_threshold + A /\ length (h_recs (m_heap m)) <= R + gc_threshold + A.
+Proof.
+  intros fs cwd main_path pfuel src code platform w R A H.
+  destruct (front_output_ok fs cwd main_path pfuel src code H) as [Hok Hne].
+  exact (heap_bounded_run code platform w R A Hok Hne).
+Qed.
+Print Assumptions C08_heap_bounded_at_every_boundary.
+
+(* the same from any well-formed starting machine (initial arena length enters the bound) *)
+Theorem C08_list_arena_bounded_from_any_state : forall code, code_ok code -> forall m0 R A,
+  mwf code m0 -> NoDup (h_free_lists (m_heap m0)) -> h_alloc (m_heap m0) < gc_threshold ->
+  length (h_lists (m_heap m0)) <= length (h_free_lists (m_heap m0)) + R + h_alloc (m_heap m0) ->
+  (forall m f m1, tstate code m0 m -> interp code f m = Ok m1 ->
+                  h_alloc (m_heap m1) <= h_alloc (m_heap m) + A /\ live_lists_le m1 R) ->
+  forall m, tstate code m0 m ->
+    length (h_lists (m_heap m)) <= Nat.max (length (h_lists (m_heap m0))) (R + gc_threshold + A).
+Proof. exact list_arena_bounded. Qed.
+Print Assumptions C08_list_arena_bounded_from_any_state.
+
+(* non-vacuity: an endless top-level loop that allocates a list per iteration and drops the previous one.  Observed after
+   about 1 500 and about 3 000 iterations (fuel 6 000 / 12 000 statements) the list arena has the same length, well under
+   the threshold, and several collections have run. *)
+Example C08_allocation_loop_runs_in_constant_heap :
+  let p0 := mkPos 1 [] in
+  let x := [120%N] in
+  let code := [FAssign AFirst x p0 [] (Some (EList [] p0)) p0; FLoop p0; FBlockStart p0;
+               FAssign AReassign x p0 [] (Some (EList [EStr [97%N] p0] p0)) p0; FBlockEnd p0; FContinue p0; FEOS p0] in
+  let m6 := snd (run code (60 * 100) None 0 (init_machine [] (mkWorld [] [] []))) in
+  let m12 := snd (run code (120 * 100) None 0 (init_machine [] (mkWorld [] [] []))) in
+  length (h_lists (m_heap m6)) = length (h_lists (m_heap m12)) /\ length (h_lists (m_heap m12)) <= 501 /\
+  2 <= m_collections m6 /\ m_collections m6 < m_collections m12.
+Proof. vm_compute. repeat split; repeat constructor. Qed.
+
 
 (* every unreachable list and record -- unreachable cycles included, reachability being the inductive [reach] --
    is emptied and put on the free list by one collection; [cp_nodup_*]: each exactly once *)
